@@ -715,7 +715,23 @@ def _v4(rng):
     return ".".join(str(rng.choice([0, 1, 9, 10, 99, 100, 127, 199, 200, 249, 250, 255, rng.randrange(256)])) for _ in range(4))
 
 
+def _v4long(rng):
+    return ".".join(str(rng.choice([100, 127, 192, 199, 200, 249, 250, 255, rng.randrange(100, 256)])) for _ in range(4))
+
+
+def _v6full(rng):
+    """uncompressed forms with leading zeros: 8 four-digit groups (39 chars) or 6 groups + dotted quad (up to 45)"""
+    def g4():
+        return rng.choice(["0000", "ffff", "FFFF", "00a0", "dead", "%04x" % rng.randrange(65536), "%04X" % rng.randrange(65536)])
+    if rng.random() < 0.7:
+        return ":".join([g4() for _ in range(6)] + [_v4long(rng) if rng.random() < 0.8 else _v4(rng)])
+    return ":".join(g4() for _ in range(8))
+
+
 def _v6(rng):
+    if rng.random() < 0.3:
+        return _v6full(rng)
+
     def grp():
         return rng.choice(["0", "1", "ffff", "FFFF", "a", "dead", "BeeF", "%x" % rng.randrange(65536), "0000", "00a"])
     total = 8
@@ -744,6 +760,20 @@ def gen_ip(rng, tier, n):
     out = [mk("ip", ""), mk("ip", "\x00"), mk("ip", "1.2.3.4\x00"), mk("ip", "\x001.2.3.4"), mk("ip", "::1\x00"), mk("ip", "a\x00b"),
            mk("ip", "::"), mk("ip", "::1"), mk("ip", "0.0.0.0"), mk("ip", "255.255.255.255"), mk("ip", "::ffff:1.2.3.4"),
            mk("ip", "1:2:3:4:5:6:7:8"), mk("ip", "1:2:3:4:5:6:7::"), mk("ip", "::2:3:4:5:6:7:8"), mk("ip", "1:2:3:4:5:6:1.2.3.4")]
+    # plain IPv6 text forms of every length class 2..45 (39 = longest pure-hex form, 40..45 = uncompressed
+    # IPv4-embedded forms), and 46+ character junk as the rejected control
+    for s6 in ["::", "::1", "1::", "ffff:ffff:ffff:ffff:ffff:ffff:ffff:ffff", "0000:0000:0000:0000:0000:0000:0000:0001",
+               "0000:0000:0000:0000:0000:ffff:1.2.3.4", "0000:0000:0000:0000:0000:ffff:10.2.3.4", "0000:0000:0000:0000:0000:ffff:10.20.3.4",
+               "0000:0000:0000:0000:0000:ffff:10.20.30.4", "0000:0000:0000:0000:0000:ffff:10.20.30.40", "0000:0000:0000:0000:0000:ffff:192.20.30.40",
+               "0000:0000:0000:0000:0000:ffff:192.168.30.40", "0000:0000:0000:0000:0000:ffff:192.168.100.40",
+               "0000:0000:0000:0000:0000:ffff:192.168.100.200", "FFFF:FFFF:FFFF:FFFF:FFFF:FFFF:255.255.255.255",
+               "::ffff:255.255.255.255", "::255.255.255.255", "0000:0000:0000:0000:0000::255.255.255.255", "64:ff9b::192.168.100.200",
+               "0000:0000:0000:0000:0000:ffff:192.168.100.200z", "0000:0000:0000:0000:0000:ffff:192.168.100.200 ",
+               "g000:0000:0000:0000:0000:ffff:192.168.100.200", "a-very-long-host-name-of-more-than-forty-six-characters.example.org",
+               "0000:0000:0000:0000:0000:ffff:192.168.100.200/128",
+               # non-ASCII text is rejected before the resolver (IDNA would map fullwidth/superscript digits)
+               "\uff11.\uff12.\uff13.\uff14", "1.2.3.\u0664", "\u00b9.2.3.4", "ex\u00e4mple.com", "::1\u00a0", "\u4e2d\u6587", "1.2.3.4\ud800"]:
+        out.append(mk("ip", s6))
     for _ in range(n):
         r = rng.random()
         if r < 0.3:
@@ -758,7 +788,7 @@ def gen_ip(rng, tier, n):
             out.append(mk("ip", rng.choice(HOSTNAMES)))
         else:
             # a numeric address damaged by a character outside [0-9a-fA-FxX.:%]
-            s = rng.choice([_v4(rng), _v6(rng)])
+            s = rng.choice([_v4(rng), _v6(rng), _v6full(rng)])
             i = rng.randrange(len(s) + 1)
             out.append(mk("ip", s[:i] + rng.choice("ghzGZ _-/[]\n\t,;@") + s[i:]))
     return out
@@ -848,6 +878,9 @@ def nontrivial(case, o):
 def classify(case, o):
     f = case["f"]
     yield "f=" + f
+    if f == "ip":
+        n = len(case["s"])
+        yield "ip:len=" + ("0-15" if n < 16 else "16-39" if n < 40 else "40-45" if n < 46 else "46+")
     if isinstance(o, Tag):
         yield f + ":" + str(o)
     elif f in ("req", "resp"):
